@@ -85,9 +85,18 @@ impl IntrinsicBuilder<'_> {
 
         // Start with empty options then fill them in.
         // NOTE: This work buffer could be saved between instructions as a minor optimization...
-        let mut out_args = vec![None; num_instr_args];
-
-        // padding gets added later during args -> bytes conversion so we don't need to fill it
+        // The indices in abi_parts are positions in the signature, which may have padding before a real
+        // parameter (e.g. `_S`); padding gets added later during args -> bytes conversion, so its slots
+        // stay empty here and are dropped at the end.
+        let num_slots = {
+            let jump_slots = jump_info.iter().map(|&(index, order)| index + match order {
+                abi_parts::JumpArgOrder::LocTime | abi_parts::JumpArgOrder::TimeLoc => 2,
+                abi_parts::JumpArgOrder::Loc => 1,
+            });
+            let other_slots = plain_args_info.iter().copied().chain(sub_id_info).chain(outputs_info.iter().map(|&(index, _)| index)).map(|index| index + 1);
+            jump_slots.chain(other_slots).max().unwrap_or(0).max(num_instr_args)
+        };
+        let mut out_args = vec![None; num_slots];
 
         // fill in all of the options
         if let (Some(goto_ast), &Some(jump_info)) = (self.jump, jump_info) {
@@ -113,8 +122,10 @@ impl IntrinsicBuilder<'_> {
             out_args[index] = Some(var);
         }
 
-        // all options should be Some(_) now
-        Ok(out_args.into_iter().map(|x| x.expect("arg was not filled in! (bug)")).collect::<Vec<_>>())
+        // all non-padding slots should be Some(_) now
+        let out_args = out_args.into_iter().flatten().collect::<Vec<_>>();
+        assert_eq!(out_args.len(), num_instr_args, "arg was not filled in! (bug)");
+        Ok(out_args)
     }
 }
 
